@@ -1183,20 +1183,15 @@ func (mgr *Manager) UpdateTag(name string, operation UpdateTagOperation) error {
 			return fmt.Errorf("tag %q is not of type 'mark' or 'generated'", name)
 		}
 		for _, s := range info.markTagAddStreams {
-			if maxUsedStreamID <= s {
-				maxUsedStreamID = s + 1
+			if maxUsedStreamID < s {
+				maxUsedStreamID = s
 			}
 		}
 		for _, s := range info.markTagDelStreams {
-			if maxUsedStreamID <= s {
-				maxUsedStreamID = s + 1
+			if maxUsedStreamID < s {
+				maxUsedStreamID = s
 			}
 		}
-		if maxUsedStreamID == 0 {
-			// no operation
-			return nil
-		}
-		maxUsedStreamID--
 	}
 	var newTag *tag
 	if info.query != nil {
